@@ -87,6 +87,26 @@ HISTORY = {
     "C19/F8-m2": ("missed", "clusters whose node ids start at 0 (clusterSpec.ZeroID)"),
     "C10/F10-m2": ("missed", "Writers / Readers with a Logger and ErrorLogger (Program.Logger)"),
     "C13/F10-m2": ("missed", "TestConcurrentHash: one shared hashing balancer used by many goroutines, every answer compared with the reference; also in a race-detector build"),
+    # round 6
+    "C08/G1-m2": ("missed", "wsim: topic names that differ by trailing digits with two-digit partition numbers; C08 rule request-mixes-partitions (judged by where the balancer sent each record); C01's check reported it as it was once the names existed"),
+    "C02/G2-m1": ("missed", "SetOffset beyond the end of the log, followed by appends that pass it"),
+    "C11/G2-m2": ("missed", "operations SeekAbsolute (with bounds check), Offset and ReadAtPosition: a failed Seek must not move the position"),
+    "C03/G3-m1": ("missed", "commit refusals that concern some partitions of a request only (fakecluster Action.ErrorSkipFirst, gsim fault code-not-first)"),
+    "C03/G3-m2": ("missed", "members with different subscriptions (gsim NarrowMembers) + assignment coverage read off the wire (leader's JoinGroup response vs its SyncGroup request)"),
+    "C04/G4-m1": ("missed", "CreateTopics / DeleteTopics version ceilings for the Conn"),
+    "C04/G4-m2": ("missed", "NOT CAUGHT, by decision: the maxTimestamp field of a v2 batch header is derived, neither C04 nor C05 names it, and the unchanged Conn path already writes the last timestamp there (observation batch_max_timestamp_is_not_the_maximum)"),
+    "C19/G4-m1": ("missed", "group-level error of an OffsetFetch (top-level field from v2); C04's response-decode unit reported it as it was"),
+    "C16/G5-m2": ("caught", "patch re-based onto the tree with fix F28 (same lines)"),
+    "C06/G6-m2": ("missed", "call kind readLSO (read_committed fetch at the last stable offset: empty record set below the high watermark) on a fourth Conn; the fake honours read_committed"),
+    "C12/G6-m2": ("missed", "worlds with SASL: SaslHandshake / SaslAuthenticate are judged by the version rule too"),
+    "C07/G7-m1": ("missed", "calls of 13-40 messages"),
+    "C09/G7-m1": ("missed", "NOT CAUGHT by C09's check (functions lingering after Close are outside its statement); reported by C15's check (next-before-functions-returned), whose clause it violates"),
+    "C09/G7-m2": ("missed", "broker state assign-error (the elected leader's partition lookup fails) + rule group-member-not-released"),
+    "C17/G8-m1": ("missed", "operation ReadBatchShortBuffer (io.ErrShortBuffer, then the rest of the response is cut)"),
+    "C17/G8-m2": ("missed", "operation ReadBatchOutOfRange (partition error code in the fetch header, cut in the rest)"),
+    "C13/G9-m1": ("missed", "user-supplied Hasher in the concurrent hash unit"),
+    "C18/G9-m1": ("missed", "entry newwriter (NewWriter with the mechanism in WriterConfig.Dialer)"),
+    "C18/G9-m2": ("missed", "two goroutines use one Transport at the same time (two brokers authenticate with one mechanism value) + paced authenticate rounds in the fake"),
 }
 
 
